@@ -1,0 +1,19 @@
+//go:build verif
+
+package render
+
+import (
+	"github.com/deadsy/sdfx/sdf"
+	v2 "github.com/deadsy/sdfx/vec/v2"
+)
+
+// VerifMsToLines is msToLines: the line segments of one marching-squares cell
+// (corner positions p, corner values v, iso level x).
+func VerifMsToLines(p [4]v2.Vec, v [4]float64, x float64) []*sdf.Line2 {
+	return msToLines(p, v, x)
+}
+
+// VerifMsInterpolate is msInterpolate: the crossing point on the cell edge p1-p2.
+func VerifMsInterpolate(p1, p2 v2.Vec, k1, k2, x float64) v2.Vec {
+	return msInterpolate(p1, p2, k1, k2, x)
+}
